@@ -30,11 +30,15 @@ INVS = ["KeepFirst", "LabelsDistinct", "NumericKept", "FirstRefOrder", "Compact"
 def doc_text(evs):
     lines, at_line = [], {}
     seen_defs = set()
+    dropped = set()
     for i, (k, l) in enumerate(evs, 1):
         at_line[i] = len(lines) + 1
         dup_tail = ""
-        if k in ("def", "qdef"):
+        if k == "ddef" and (i - 1) in dropped:
+            pass            # written inside a dropped body: it does not exist (and defines nothing)
+        elif k in ("def", "qdef", "ddef"):
             if l in seen_defs:
+                dropped.add(i)
                 # the text of a dropped duplicate is not part of the document: a reference written inside it refers to nothing
                 other = next((m for _, m in evs if m != l), None)
                 dup_tail = f" see [^{other}]" if other and other != "-" else ""
@@ -42,7 +46,9 @@ def doc_text(evs):
         lines += {"ref": [f"R{i} [^{l}]"], "def": [f"[^{l}]: D{i}{dup_tail}"], "hr": ["***"], "head": [f"# {l}"],
                   "qdef": [f"> [^{l}]: D{i}{dup_tail}"], "nref": ["```{note}", f"R{i} [^{l}]", "```"],
                   # a second paragraph of the definition written just before (indented continuation)
-                  "dref": [f"    R{i} [^{l}]"]}[k] + [""]
+                  "dref": [f"    R{i} [^{l}]"],
+                  # a definition inside the body of the definition written just before
+                  "ddef": [f"    [^{l}]: D{i}{dup_tail}"]}[k] + [""]
     return "\n".join(lines) + "\n", at_line
 
 
@@ -151,8 +157,10 @@ def project_doc(doc, warns, evs, text, line_at, sort):
             final.append(["?", c.tagname])
     # a definition written inside a block quote stays there when sorting is off; anything else is at document/section level
     qdef_at = {i for i, (k, _) in enumerate(evs, 1) if k == "qdef"}
+    ddef_at = {i for i, (k, _) in enumerate(evs, 1) if k == "ddef"}
     nested = [f for f in fns if not isinstance(f.parent, (nodes.document, nodes.section))
-              and not (not case["sort"] and at_of.get(id(f)) in qdef_at and isinstance(f.parent, nodes.block_quote))]
+              and not (not case["sort"] and at_of.get(id(f)) in qdef_at and isinstance(f.parent, nodes.block_quote))
+              and not (not case["sort"] and at_of.get(id(f)) in ddef_at and isinstance(f.parent, nodes.footnote))]
     if nested:
         problems.append("footnote not at document/section level")
     dupw, unrefw = [], []
@@ -284,12 +292,12 @@ def run(ctx):
     from .. import pipeline
     pipeline.check(ctx, "C11")
     recs = (r.records + [x for x in r2.records if any(e[0] in ("hr", "head") for e in x["evs"])]
-            + [x for x in r3.records if any(e[0] in ("qdef", "nref", "dref") for e in x["evs"])])
+            + [x for x in r3.records if any(e[0] in ("qdef", "nref", "dref", "ddef") for e in x["evs"])])
     outs = pmap(observe, recs, chunksize=64)
     for rec, o in zip(recs, outs):
         key = (repr(rec["evs"]), rec["sort"], rec["trans"])
         ks = {k for k, _ in rec["evs"]}
-        ctx.count(key, nontrivial=bool(ks & {"ref", "nref", "dref"}) and bool(ks & {"def", "qdef"}))
+        ctx.count(key, nontrivial=bool(ks & {"ref", "nref", "dref"}) and bool(ks & {"def", "qdef", "ddef"}))
         ctx.traces_validated += 1
         case = {"leg": "R", "markdown": o["text"], "footnote_sort": rec["sort"], "footnote_transition": rec["trans"]}
         if "error" in o:
@@ -324,7 +332,7 @@ def run(ctx):
         # references inside the body of a definition (a second paragraph of it)
         for n in range(len(evs) - 1, -1, -1):
             if evs[n][0] == "def" and rnd.random() < 0.3:
-                evs.insert(n + 1, ["dref", rnd.choice(pool)])
+                evs.insert(n + 1, [rnd.choice(["dref", "dref", "ddef"]), rnd.choice(pool)])
         cases.append({"id": t, "evs": evs, "sort": rnd.random() < 0.6, "trans": rnd.random() < 0.5})
     vouts = pmap(observe, cases, chunksize=16)
     traces, keep = [], {}
